@@ -33,22 +33,26 @@ CONSTANTS
     MaxPairs,    \* longest pair list handed to update / the constructor
     SetVals,     \* value specs for SetItem / SetDefault
     PairVals,    \* value specs inside pair lists
+    Origins,     \* where the dictionary under test comes from: "ctor" (constructed directly) or "loads:<block>" -
+                 \* an object the library itself handed out (loads of a document, possibly a nested block such as
+                 \* web.metadata), emptied through its own keys() / del; such objects always carry the hook
     Factories,   \* initial default hooks explored by this run: subset of {"None", "Dict"}
     Mixed,       \* TRUE: update / the constructor are also called with a positional argument AND keyword arguments
     AdoptSet,    \* {FALSE} or BOOLEAN: may the walk continue on a copy / a constructed dict
     Mode,        \* "graph" (every transition once) | "walk" (random behaviours)
     Bug          \* "none"; anything else selects a deliberately wrong variant (negative configs)
 
-VARIABLES items, factory, heap, obs, hist
+VARIABLES items, factory, heap, origin, obs, hist
 
-vars == <<items, factory, heap, obs, hist>>
-View == <<items, factory, heap>>
+vars == <<items, factory, heap, origin, obs, hist>>
+View == <<items, factory, heap, origin>>
 
 V == INSTANCE Vocab             \* tables extracted from the tree: V!ObjectListKeys
 
 Fold(k) == CASE k = "A" -> "a" [] k = "B" -> "b" [] k = "C" -> "c"
              [] k = "LAYERS" -> "layers" [] k = "Layers" -> "layers"
              [] k = "CLASSES" -> "classes" [] k = "Classes" -> "classes"
+             [] k = "__TYPE__" -> "__type__" [] k = "__Type__" -> "__type__"      \* bookkeeping keys are keys like any other
              [] OTHER -> k
 
 -----------------------------------------------------------------------------
@@ -137,6 +141,7 @@ Commit(its2, fac2, hp, op, ret) ==
     LET o == [op |-> op, ret |-> ret, hp |-> hp, items |-> its2, factory |-> fac2, fpre |-> factory]
     IN  /\ items' = its2
         /\ factory' = fac2
+        /\ origin' = origin
         /\ heap' = [i \in 1..MaxId |-> IF i \in Reach(its2, hp) THEN hp[i] ELSE FreeObj]
         /\ obs' = o
         /\ hist' = Append(hist, IF Mode = "walk" THEN [o EXCEPT !.hp = Dense(hp)] ELSE [op |-> op.name])
@@ -260,7 +265,8 @@ KeysOp == Commit(items, factory, heap, Op("Keys"), [t |-> "keys", n |-> 0, ks |-
 
 Init ==
     /\ items = <<>>
-    /\ factory \in Factories
+    /\ origin \in Origins
+    /\ factory \in (IF origin = "ctor" THEN Factories ELSE {"Dict"})
     /\ heap = [i \in 1..MaxId |-> FreeObj]
     /\ obs = [op |-> Op("Init"), ret |-> NoneV, hp |-> heap, items |-> <<>>, factory |-> factory, fpre |-> factory]
     /\ hist = <<>>
@@ -334,8 +340,8 @@ Refines == Plain!Spec
 -----------------------------------------------------------------------------
 (* (G) emission                                                            *)
 \* graph mode: every transition whose pre-state lies within MaxSteps - 1 steps, printed once
-EmitEdge == PrintT(ToJson([pre |-> [items |-> items, factory |-> factory, heap |-> Dense(heap)],
+EmitEdge == PrintT(ToJson([pre |-> [items |-> items, factory |-> factory, heap |-> Dense(heap), origin |-> origin],
                               e |-> [obs' EXCEPT !.hp = Dense(obs'.hp)], post |-> Dense(heap')]))
 \* walk mode: the behaviour is printed when it is MaxSteps long
-EmitWalk == Len(hist) = MaxSteps => PrintT(ToJson([f0 |-> hist[1].fpre, walk |-> hist]))
+EmitWalk == Len(hist) = MaxSteps => PrintT(ToJson([f0 |-> hist[1].fpre, origin |-> origin, walk |-> hist]))
 =============================================================================
